@@ -72,8 +72,35 @@ def build_asan_harness(name):
     return out
 
 
+def repaired():
+    """which tree the 'real' mode of NeutralFile.tla has to transcribe: the one first examined, or the one after the repairs of
+    the reading / writing defects (recognised in the sources: ASerializable::_recordReadVec tests 'ecr >= nvalues');
+    VERIF_NF_REPAIRED=0/1 forces the answer"""
+    v = os.environ.get("VERIF_NF_REPAIRED")
+    if v is not None:
+        return v not in ("0", "", "false", "FALSE")
+    try:
+        src = open(os.path.join(vlib.REPO, "include", "Basic", "ASerializable.hpp")).read()
+    except OSError:
+        return False
+    return "ecr >= nvalues" in src
+
+
+def repaired_tla():
+    return "TRUE" if repaired() else "FALSE"
+
+
+def load_known_override(ck, env):
+    """trial runs: VERIF_C08_KNOWN / VERIF_C09_KNOWN name a file that replaces the list of known findings of the property"""
+    path = os.environ.get(env)
+    if path:
+        data = json.load(open(path))
+        ck.known = [e for e in data.get("findings", []) if e.get("property") == ck.pid and e.get("status") == "known"]
+        log("[%s] known findings taken from %s (%d entries)" % (ck.pid, path, len(ck.known)))
+
+
 def classes_cfg(level, classes):
-    return "SPECIFICATION Spec\nCONSTANTS\n Level = %d\n Classes = {%s}\n" % (level, ", ".join('"%s"' % c for c in classes))
+    return "SPECIFICATION Spec\nCONSTANTS\n Level = %d\n Repaired = %s\n Classes = {%s}\n" % (level, repaired_tla(), ", ".join('"%s"' % c for c in classes))
 
 
 def draw_picks(shapes, per_class, rng):
@@ -222,7 +249,7 @@ def model_and_cases(ck, classes, level, per_class, rng, tag, workers):
     pp = os.path.join(w, "picks_%s.ndjson" % tag)
     vlib.write_ndjson(pp, picks)
     mcfg = os.path.join(w, "mc_%s.cfg" % tag)
-    open(mcfg, "w").write("SPECIFICATION Spec\nCONSTANTS\n Level = %d\nCHECK_DEADLOCK FALSE\n" % level)
+    open(mcfg, "w").write("SPECIFICATION Spec\nCONSTANTS\n Level = %d\n Repaired = %s\nCHECK_DEADLOCK FALSE\n" % (level, repaired_tla()))
     res = vlib.run_tlc("MC_NeutralFile", mcfg, workers=workers, env={"PICKS": pp, "JAVA_TOOL_OPTIONS": TLC_JAVA}, timeout=3000)
     if res.violation:
         raise Broken("MC_NeutralFile reports an error:\n" + res.violation)
@@ -335,7 +362,7 @@ def path_cases(ck):
     """file-name resolution of ASerializable under the container / prefix settings: model verdict vs real library"""
     w = ck.work
     cfg = os.path.join(w, "paths.cfg")
-    open(cfg, "w").write("SPECIFICATION Spec\nCONSTANTS\n Level = 1\n")
+    open(cfg, "w").write("SPECIFICATION Spec\nCONSTANTS\n Level = 1\n Repaired = %s\n" % repaired_tla())
     pcs = vlib.tlc_emit_json("EmitNFPaths", cfg, os.path.join(w, "paths.json"))
     exe = vlib.build_harness("nf_run")
     cp, op = os.path.join(w, "pcases.ndjson"), os.path.join(w, "pobs.ndjson")
@@ -370,6 +397,8 @@ def run(tier):
 
 
 def _run(ck, tier):
+    load_known_override(ck, "VERIF_C08_KNOWN")
+    ck.cov["transcription"] = "repaired tree" if repaired() else "tree as first examined"
     vlib.build_lib()
     rng = random.Random(vlib.seed() * 7919 + 17)
     workers = int(os.environ.get("VERIF_TLC_WORKERS", "8"))
